@@ -760,7 +760,17 @@ def rule_puts_are_flushed(res, rid, m):
                  m.fb.resolve_call(c) is not m.finisher and any(m.calls_fn(x, m.putPacket) for x in m.fb.resolve_call(c).calls()))]
         if not puts:
             continue
-        pblocks = {cfg.block_for(c) for c in puts}
+        def put_block(c):
+            # a put inside a lambda (std::for_each(begin, end, [this](..) { putPacket(..); })) happens where the lambda is handed over
+            b = cfg.block_for(c)
+            for a in e.ancestors(c):
+                if b is not None:
+                    break
+                b = cfg.block_of.get(a.get("id"))
+            return b
+        pblocks = {put_block(c) for c in puts}
+        if None in pblocks:
+            raise Broken("%s: a putPacket call cannot be placed in the control-flow graph" % e.name)
         reach = set()
         st = list(pblocks)
         while st:
@@ -779,7 +789,7 @@ def rule_puts_are_flushed(res, rid, m):
                 n += 1
                 continue
             rb = cfg.block_for(r)
-            after_put = rb in reach or (rb in pblocks and any(cfg.pos_of.get(c["id"], 10 ** 9) < cfg.pos_of.get(r["id"], -1) for c in puts if cfg.block_for(c) == rb))
+            after_put = rb in reach or (rb in pblocks and any(cfg.pos_of.get(c["id"], -1) < cfg.pos_of.get(r["id"], -1) for c in puts if put_block(c) == rb))
             n += 1
             res.check(not after_put, rid, "encode(%s):return@%s" % (tag, (r.get("loc") or "").split(":", 1)[-1]), r.get("loc"),
                       "a return without the finisher's frames is only possible before anything was put",
